@@ -705,3 +705,12 @@ def _jschunk_rest(cx, rep, p):
     popc = [c for c in ast.walk(deq) if isinstance(c, ast.Call) and isinstance(c.func, ast.Attribute) and c.func.attr in ('pop', 'shift')]
     okq = (len(rev) == 1 and len(popc) == 1 and popc[0].func.attr == 'pop') or (not rev and len(popc) == 1 and popc[0].func.attr == 'shift')
     rep.decide(okq, 'record queue', deq, 'records leave the queue in arrival order', 'the producer/consumer queue does not deliver records in arrival order')
+    enq = [m for m in q.body if isinstance(m, ast.FunctionDef) and m.name == 'enqueue'][0]
+    pushes = [c for c in ast.walk(enq) if isinstance(c, ast.Call) and isinstance(c.func, ast.Attribute) and c.func.attr in ('push', 'unshift', 'splice')]
+    targets = sorted({dotted(c.func.value) for c in pushes})
+    if rev:
+        oke = targets == ['self.push_stack'] and len(pushes) == 1 and pushes[0].func.attr == 'push'
+        rep.decide(oke, 'record queue enqueue', enq, 'new records only ever go onto the push stack', 'enqueue() also writes to {}: a record can overtake older records still waiting on the push stack, so records come out reordered under some chunk arrival timings'.format([t for t in targets if t != 'self.push_stack'] or targets))
+    refill = [n for n in walk_no_nested(deq) if isinstance(n, ast.If) and 'pull_stack' in node_text(n.test)]
+    okr = bool(refill) and (negated(refill[0].test) is not None) and any(isinstance(x, ast.Call) and isinstance(x.func, ast.Attribute) and x.func.attr == 'reverse' for x in ast.walk(refill[0])) if rev else True
+    rep.decide(okr, 'record queue refill', refill[0] if refill else deq, 'the pull stack is refilled (reversed push stack) only when it is empty', 'the pull stack is refilled while it still holds older records')
